@@ -1,5 +1,6 @@
 ---- MODULE MC_t_match_other ----
 EXTENDS MCOFWire
 TheCases == UNION {MatchIn(k, MFlagsAll(0) \cup MBits(BitsT) \cup MTypes(0) \cup MVals(0), "t") : k \in MatchKinds \ {"flow_mod"}}
+TheRCases == {}
 TheAround == AroundOne
 ====
